@@ -192,7 +192,7 @@ fn frame_nontrivial(f: &FrameIn) -> bool {
     f.cies.iter().any(|c| c.code_align > 255 || c.data_align > 127 || c.data_align < -128 || c.instrs.iter().any(|o| wide(o, c.data_align))) || f.fdes.iter().any(|d| d.range_raw > u32::MAX as u64 || d.instrs.iter().any(|o| wide(o, f.cies[d.cie].data_align)))
 }
 
-fn dump_bytes(bytes: &[u8], eh: bool, big: bool, address_size: u8, aarch64: bool) -> Result<Vec<FdeDump>, String> {
+pub fn dump_frame_bytes(bytes: &[u8], eh: bool, big: bool, address_size: u8, aarch64: bool) -> Result<Vec<FdeDump>, String> {
     let endian = if big { RunTimeEndian::Big } else { RunTimeEndian::Little };
     let bases = gimli::BaseAddresses::default().set_eh_frame(0);
     let vendor = if aarch64 { gimli::Vendor::AArch64 } else { gimli::Vendor::Default };
@@ -209,7 +209,7 @@ fn dump_bytes(bytes: &[u8], eh: bool, big: bool, address_size: u8, aarch64: bool
     }
 }
 
-fn convert_bytes(bytes: &[u8], eh: bool, big: bool, address_size: u8, aarch64: bool) -> Result<Vec<u8>, String> {
+pub fn convert_frame_bytes(bytes: &[u8], eh: bool, big: bool, address_size: u8, aarch64: bool) -> Result<Vec<u8>, String> {
     let endian = if big { RunTimeEndian::Big } else { RunTimeEndian::Little };
     let vendor = if aarch64 { gimli::Vendor::AArch64 } else { gimli::Vendor::Default };
     let ca = |a: u64| Some(w::Address::Constant(a));
@@ -265,17 +265,17 @@ pub fn check_frame(ch: &mut Choices, cx: &mut Ctx) -> R {
     cx.label(if f.eh { "frame:.eh_frame" } else { "frame:.debug_frame" });
     let built = build_frame(f.eh, f.big, &f.cies, &f.fdes, &f.order, f.eh);
     cx.sample_with(|| format!("{} {} addr{} cies {:?} fdes {:?}", if f.eh { ".eh_frame" } else { ".debug_frame" }, if f.big { "BE" } else { "LE" }, f.address_size, f.cies.iter().map(|c| (c.version, String::from_utf8_lossy(&c.aug).to_string(), c.code_align, c.data_align, c.fde_enc, &c.instrs)).collect::<Vec<_>>(), f.fdes.iter().map(|d| (d.cie, d.initial_raw, d.range_raw, &d.instrs)).collect::<Vec<_>>()));
-    let d0 = match dump_bytes(&built.bytes, f.eh, f.big, f.address_size, f.aarch64) {
+    let d0 = match dump_frame_bytes(&built.bytes, f.eh, f.big, f.address_size, f.aarch64) {
         Ok(d) => d,
         Err(e) => {
             // not accepted by the reader: the conversion must fail too (or at least not panic)
             cx.label("frame: input rejected by the reader");
-            let _ = convert_bytes(&built.bytes, f.eh, f.big, f.address_size, f.aarch64);
+            let _ = convert_frame_bytes(&built.bytes, f.eh, f.big, f.address_size, f.aarch64);
             let _ = e;
             return Ok(());
         }
     };
-    let out = match convert_bytes(&built.bytes, f.eh, f.big, f.address_size, f.aarch64) {
+    let out = match convert_frame_bytes(&built.bytes, f.eh, f.big, f.address_size, f.aarch64) {
         Ok(o) => o,
         Err(e) => {
             cx.label(if e.starts_with("convert") { "frame: conversion refused" } else { "frame: write refused" });
@@ -285,7 +285,7 @@ pub fn check_frame(ch: &mut Choices, cx: &mut Ctx) -> R {
     if d0.iter().any(|d| d.rows.is_err()) {
         cx.label("frame: an input FDE's program stops with an error");
     }
-    let d1 = match dump_bytes(&out, f.eh, f.big, f.address_size, f.aarch64) {
+    let d1 = match dump_frame_bytes(&out, f.eh, f.big, f.address_size, f.aarch64) {
         Ok(d) => d,
         Err(e) => fail!("c12/frame/output-unreadable", "{}", e),
     };
@@ -302,9 +302,9 @@ pub fn check_frame(ch: &mut Choices, cx: &mut Ctx) -> R {
     }
     cx.label("frame: converted and compared");
     // idempotence
-    match convert_bytes(&out, f.eh, f.big, f.address_size, f.aarch64) {
+    match convert_frame_bytes(&out, f.eh, f.big, f.address_size, f.aarch64) {
         Ok(out2) => {
-            let d2 = match dump_bytes(&out2, f.eh, f.big, f.address_size, f.aarch64) {
+            let d2 = match dump_frame_bytes(&out2, f.eh, f.big, f.address_size, f.aarch64) {
                 Ok(d) => d,
                 Err(e) => fail!("c12/frame/second-output-unreadable", "{}", e),
             };
